@@ -1221,6 +1221,7 @@ class AgProtocol(utils.EventEmitter):
         # Configure internal state.
         self.dlc = dlc
         self.read_buffer = bytearray()
+        self.responses_sent = 0
         self.active_codec = AudioCodec.CVSD
         self.calls = []
 
@@ -1300,13 +1301,23 @@ class AgProtocol(utils.EventEmitter):
                     )
                     self.send_response('ERROR')
                     continue
-                handler(*command.parameters)
+                responses_sent = self.responses_sent
+                try:
+                    handler(*command.parameters)
+                except Exception:
+                    # Keep reading: the lines that follow in the buffer are commands
+                    # of their own. The command is concluded with ERROR unless the
+                    # handler had answered it before it raised.
+                    logger.exception('Exception in handler %s', handler_name)
+                    if self.responses_sent == responses_sent:
+                        self.send_response('ERROR')
             else:
                 logger.warning('Handler %s not found', handler_name)
                 self.send_response('ERROR')
 
     def send_response(self, response: str) -> None:
         """Sends an AT response."""
+        self.responses_sent += 1
         self.dlc.write(f'\r\n{response}\r\n')
 
     def send_cme_error(self, error_code: CmeError) -> None:
